@@ -481,7 +481,7 @@ pub fn run(ctx: &mut Ctx) {
     if ctx.failed() { return; }
     ctx.search("decompressors", move || strategy(lib_fast.clone()), ctx.tier.pick(30_000, 1_000_000), true, eval);
     if ctx.failed() { return; }
-    ctx.search("brotli", move || strategy(brotli.clone()), ctx.tier.pick(6_000, 150_000), true, eval);
+    ctx.search("brotli", move || strategy(brotli.clone()), ctx.tier.pick(25_000, 300_000), true, eval);
     if ctx.failed() { return; }
     if ctx.tier == crate::core::Tier::Thorough || std::env::var("VERIF_FUZZ").is_ok() {
         let jobs = ctx.workers.min(16);
